@@ -38,6 +38,7 @@ type World struct {
 	ContractFiles []string
 	GlobalInit func(e *Exec, st *State, g *ssa.Global) (Val, bool)
 	ifaceConv  map[string]map[string]bool
+	implOf     map[string]*Contract
 }
 
 // Load loads packages (patterns relative to repo) with the verif tag and builds SSA.
@@ -154,6 +155,9 @@ func (w *World) contractFor(fn *ssa.Function) *Contract {
 	}
 	if c, ok := w.Contracts[fn.String()]; ok {
 		return c
+	}
+	if c, ok := w.implOf[fn.String()]; ok {
+		return c // the method implements an interface method that has a contract
 	}
 	if w.SchemaFor != nil {
 		return w.SchemaFor(fn)
@@ -609,6 +613,14 @@ func (w *World) bindIfaceContract(ct *Contract) bool {
 	}
 	sort.Strings(impls)
 	ct.Impls = impls
+	if w.implOf == nil {
+		w.implOf = map[string]*Contract{}
+	}
+	for _, k := range impls {
+		if _, own := w.Contracts[k]; !own && !ct.Abstract {
+			w.implOf[k] = ct
+		}
+	}
 	return true
 }
 
